@@ -15,6 +15,7 @@
 package message
 
 import (
+	"bytes"
 	"encoding/binary"
 	"fmt"
 	"regexp"
@@ -565,8 +566,8 @@ func (m *ConnectMessage) decodeMessage(src []byte) (int, error) {
 		}
 
 		// Ill-formed UTF-8 in a string field is a malformed packet [MQTT-1.5.3-1]
-		if !utf8.Valid(m.willTopic) {
-			return total, fmt.Errorf("connect/decodeMessage: Will Topic is not valid UTF-8")
+		if !utf8.Valid(m.willTopic) || bytes.IndexByte(m.willTopic, 0) >= 0 {
+			return total, fmt.Errorf("connect/decodeMessage: Will Topic is not valid UTF-8 or contains U+0000")
 		}
 
 		m.willMessage, n, err = readLPBytes(src[total:])
@@ -585,8 +586,8 @@ func (m *ConnectMessage) decodeMessage(src []byte) (int, error) {
 			return total, err
 		}
 
-		if !utf8.Valid(m.username) {
-			return total, fmt.Errorf("connect/decodeMessage: User Name is not valid UTF-8")
+		if !utf8.Valid(m.username) || bytes.IndexByte(m.username, 0) >= 0 {
+			return total, fmt.Errorf("connect/decodeMessage: User Name is not valid UTF-8 or contains U+0000")
 		}
 	}
 
